@@ -401,7 +401,9 @@ func checkRelaxedTime(r *Report, p *Prog) {
 	fc := a.Ctx(str)
 	r.Fn(p.FnName(str))
 	// canonical: v is Format(xsd layout) of the instant's Round(Millisecond).UTC() and nothing else
-	canonical := func(v ssa.Value) (bool, string) {
+	var canonicalIn func(v ssa.Value, bind map[*ssa.Parameter]ssa.Value, depth int) (bool, string)
+	canonical := func(v ssa.Value) (bool, string) { return canonicalIn(v, nil, 0) }
+	canonicalIn = func(v ssa.Value, bind map[*ssa.Parameter]ssa.Value, depth int) (bool, string) {
 		for {
 			if cv, ok := v.(*ssa.Convert); ok {
 				v = cv.X
@@ -410,7 +412,30 @@ func checkRelaxedTime(r *Report, p *Prog) {
 			break
 		}
 		c, ok := v.(*ssa.Call)
-		if !ok || !(calleeIs(c, "(time.Time).Format") || calleeIs(c, "(time.Time).AppendFormat") && emptyByteSlice(c.Call.Args[1])) {
+		// the text produced by a method of the same type with one return, handed the receiver itself (String and
+		// MarshalText sharing appendText(buf)): what that method returns, with its parameters bound
+		if ok && depth < 2 {
+			if sc := c.Call.StaticCallee(); sc != nil && p.InLibrary(sc) && sc.Signature.Recv() != nil && namedOf(sc.Signature.Recv().Type()) == rt && len(c.Call.Args) > 0 {
+				if _, isRecv := Resolve(c.Call.Args[0]).(*ssa.Parameter); isRecv {
+					if ret := singleReturn(sc); ret != nil && len(ret.Results) == 1 {
+						nb := map[*ssa.Parameter]ssa.Value{}
+						for i, q := range sc.Params {
+							if i < len(c.Call.Args) {
+								nb[q] = c.Call.Args[i]
+							}
+						}
+						return canonicalIn(Resolve(ret.Results[0]), nb, depth+1)
+					}
+				}
+			}
+		}
+		bufOK := func(bv ssa.Value) bool {
+			if q, isP := bv.(*ssa.Parameter); isP && bind[q] != nil {
+				bv = bind[q]
+			}
+			return emptyByteSlice(bv)
+		}
+		if !ok || !(calleeIs(c, "(time.Time).Format") || calleeIs(c, "(time.Time).AppendFormat") && bufOK(c.Call.Args[1])) {
 			return false, "not a time.Time.Format result"
 		}
 		layout, _ := constStr(c.Call.Args[len(c.Call.Args)-1])
